@@ -39,6 +39,8 @@ def rand_times(rng, n):
         out.append((a, b))
         if rng.random() < 0.2 and len(out) < n:
             out.append((a, b))      # identical timespan again (a run of concurrent captions)
+        elif rng.random() < 0.1 and len(out) < n and isinstance(a, int) and b - a > 2000:
+            out.append((a + (b - a) // 2 // 1000 * 1000, b + 1000000))      # a cue that starts before the previous one has ended
         r = rng.random()
         t = (int(b) + 1 if isinstance(b, float) else b) + (0 if r < 0.4 else rng.choice([1, 999, 1000, 1001, 250000, 61000000]))
     return out
@@ -185,9 +187,9 @@ def explore(chk):
                     if ms != raw:
                         chk.correspondence_failure(dict(case, model=str(ms)), "_format_timestamp: implementation and model differ")
             elif wname == "sami":
-                if not all(sorted_nonoverlapping(t) for t in langs_times):
-                    chk.count("sami_skipped_concurrent")   # SAMI cannot represent concurrent cues; C02/C14 quantify over sorted lists
-                    continue
+                ordered = all(sorted_nonoverlapping(t) for t in langs_times)
+                if not ordered:
+                    chk.count("sami_concurrent_or_overlapping")   # order of SYNC blocks is then not defined; the events themselves are
                 soup = BeautifulSoup(doc, "html.parser")
                 lang_names = list(abstract.keys())
                 got = []
@@ -222,6 +224,8 @@ def explore(chk):
                         want.append((trunc_ms(a), False))
                         prev_end = trunc_ms(b_)
                     seq = [(int(st), bl) for (st, ps) in got for (l2, bl, k) in ps if l2 == li]
+                    if not ordered:
+                        seq, want = sorted(seq), sorted(want)
                     if seq != want:
                         chk.property_failure(dict(case, lang=li, parsed=str(seq), spec=str(want)),
                                              "sami: syncs of a language are not (cue at start ms, blank at end ms unless the next cue starts there, none after the last)")
@@ -231,7 +235,7 @@ def explore(chk):
                         st, ps = s.split(":")
                         # the model tags a blank with the index of the caption that follows it
                         M.append((st, [] if ps == "_" else [(int(x.split(".")[0]), x.split(".")[1] == "1", int(x.split(".")[2])) for x in ps.split(" ")]))
-                    if M != got:
+                    if M != got and ordered:
                         chk.correspondence_failure(dict(case, parsed=str(got), model=str(M)), "sami sync plan: implementation and model differ")
 
 
